@@ -126,8 +126,10 @@ package block
 //@ pred DAIncPersisted(m) := (m.store.metaHas["d"] && le64dec(m.store.meta["d"]) == m.daIncludedHeight && blen(m.store.meta["d"]) == 8)
 //@                            || (!m.store.metaHas["d"] && m.daIncludedHeight == 0)
 
+// (C06: marking a height as included never moves the submission watermarks - what is still to be submitted is
+// decided by the submission loops alone; the frame below does not list them)
 //@ func (m *Manager) incrementDAIncludedHeight(ctx) (err)
-//@   property C07
+//@   property C07 C06:kind:frame C08:kind:frame
 //@   modifies m.daIncludedHeight, durable m.store.meta["d"], durable m.store.metaHas["d"], m.exec.finalized
 //@   requires [inv] DAIncPersisted(m)
 //@   requires [bound] m.daIncludedHeight < 18446744073709551615
@@ -171,7 +173,7 @@ package block
 //@   ensures [frame] m.daIncludedHeight == old(m.daIncludedHeight) && m.store.meta["d"] == old(m.store.meta["d"]) && m.store.metaHas["d"] == old(m.store.metaHas["d"])
 
 //@ func (m *Manager) DAIncluderLoop(ctx, errCh)
-//@   property C07
+//@   property C07 C06:kind:frame C08:kind:frame
 //@   modifies m.daIncludedHeight, durable m.store.meta, durable m.store.metaHas, m.exec.finalized
 //@   requires [m] m.headerCache != nil && m.dataCache != nil && m.pendingHeaders != nil && m.pendingHeaders.base != nil
 //@   requires [inv] DAIncPersisted(m) && m.daIncludedHeight <= m.store.height
@@ -293,6 +295,10 @@ package block
 //@   ensures [length] len(r) == sumLen(batchData, len(batchData)) + 4 * len(batchData)
 //@   loop 1 invariant [size] rangeindex >= -1 && rangeindex < len(batchData) && totalSize == sumLen(batchData, rangeindex + 1) + 4 * (rangeindex + 1)
 //@   loop 2 invariant [length] rangeindex >= -1 && rangeindex < len(batchData) && len(result) == sumLen(batchData, rangeindex + 1) + 4 * (rangeindex + 1)
+// the byte format of the persisted cursor is pinned where it starts: the first four bytes are the
+// little-endian length of the first entry (a store written by one build is read by the next)
+//@   ensures [prefix-little-endian] len(batchData) > 0 ==> len(r) >= 4 && val(r[0:4]) == le32(len(batchData[0]) % 4294967296)
+//@   loop 2 invariant [first-prefix] rangeindex >= 0 ==> len(result) >= 4 && val(result[0:4]) == le32(len(batchData[0]) % 4294967296)
 
 //@ func (m *Manager) retrieveBatch(ctx) (bd, err)
 //@   property C01 C11
@@ -324,7 +330,7 @@ package block
 
 //@ func (m *Manager) publishBlockInternal(ctx) (err)
 //@   property C01:-taken-batch-kept
-//@   property C11:taken-batch-kept
+//@   property C11:taken-batch-kept,stored-block-kept
 //@   property C04:kind:crash,kind:frame,height,state,inv-state,inv-tip,inv-genesis,inv-no-future,signs-own-block,signed,link,committed-valid,stored-block-kept,-taken-batch-kept
 //@   property C08:refuse,no-refuse
 //@   requires [wiring] m.metrics != nil && m.headerCache != nil && m.pendingHeaders != nil && m.pendingHeaders.base != nil && m.pendingData != nil && m.pendingData.base != nil
@@ -609,6 +615,15 @@ package block
 // a node that has applied at least its first block starts again on what it recorded: every recorded state at or
 // above the initial height is accepted (only a state below the genesis' initial height is refused)
 //@   ensures [starts-on-any-applied-state] old(store.hasState) && !store.faulty && old(store.stateAt.lastBlockHeight) >= genesis.InitialHeight ==> err == nil
+// a store without a state record is a chain that has not finished its first block - whatever height it records
+// (NewManager itself records InitialHeight-1 before any state exists, and the first state is written by the
+// first production step): start-up initialises it again, and fails only for a cause in the executor, the
+// signer or the storage
+//@   observe ic := call InitChain
+//@   observe gp := call GetPublic
+//@   observe spp := call SignaturePayloadProvider
+//@   observe sg := call Sign
+//@   ensures [fresh-chain-starts] !old(store.hasState) && !store.faulty && err != nil ==> (ic && ic.res2 != nil) || (gp && gp.res1 != nil) || (spp && spp.res1 != nil) || (sg && sg.res1 != nil)
 //@   ensures [state-untouched] store.hasState == old(store.hasState) && store.stateAt == old(store.stateAt) && store.height == old(store.height)
 
 // the configured payload provider reads the header, it does not change it (assumed)
@@ -627,6 +642,8 @@ package block
 //@   ensures [empty] len(data) == 0 ==> err == nil && len(r) == 0
 //@   ensures [nil-on-error] err != nil ==> r == nil
 //@   loop 1 invariant [offset] 0 <= offset && offset <= len(data)
+//@   ensures [first-length-little-endian] err == nil && len(data) >= 4 ==> len(r) >= 1 && len(r[0]) == le32dec(val(data[0:4]))
+//@   loop 1 invariant [first-entry] (offset == 0 ==> len(result) == 0) && (offset > 0 ==> len(result) >= 1 && len(result[0]) == le32dec(val(data[0:4])))
 
 // NewManager: the recorded height is raised to the state's height (never the other way round), and
 // on a chain that starts now - no state, no submission watermarks - nothing counts as waiting for DA
@@ -684,7 +701,7 @@ package block
 // filter), the seen-set grows only after the sequencer accepted the hand-off and only by
 // transactions that were handed over; a refused hand-off marks nothing, so the round is retried.
 //@ func (r *Reaper) SubmitTxs()
-//@   property C11
+//@   property C11 C17:notifies,wiring
 //@   requires [wiring] r.exec != nil && r.sequencer != nil && r.seenStore != nil && r.logger != nil
 //@   observe gt := call GetTxs
 //@   observe sub := call SubmitBatchTxs
@@ -705,6 +722,8 @@ package block
 //@   ensures [marks-only-handed-over] forall k :: r.seenStore.kvHas[k] && !old(r.seenStore.kvHas)[k] ==> sub && sub.res1 == nil && exists j :: 0 <= j && j < len(sub.arg2.Batch.Transactions) && k == SeenKey(sub.arg2.Batch.Transactions[j])
 //@   ensures [marks-all-handed-over] sub && sub.res1 == nil && !r.seenStore.dsFaulty ==> forall j :: 0 <= j && j < len(sub.arg2.Batch.Transactions) ==> r.seenStore.kvHas[SeenKey(sub.arg2.Batch.Transactions[j])]
 //@   ensures [marks-kept] forall k :: old(r.seenStore.kvHas)[k] ==> r.seenStore.kvHas[k]
+// C17: every hand-off of new transactions wakes the aggregation loop - the lazy loop forgets the previous
+// notification when it produces a block, so a hand-off without one waits for the idle timer
 //@   ensures [notifies] sub && sub.res1 == nil && r.manager != nil ==> ntf.count == 1
 //@   crash_inv [mark-after-hand-off] forall k :: r.seenStore.kvHas[k] && !old(r.seenStore.kvHas)[k] ==> sub && sub.res1 == nil
 
@@ -723,7 +742,7 @@ package block
 // ---- C09: scanning the DA layer ----------------------------------------------------------------
 
 //@ func (m *Manager) fetchBlobs(ctx, daHeight) (res, err)
-//@   property C09 C16
+//@   property C09 C16 C07:err-iff,is-helper-result C02:err-iff,is-helper-result
 //@   requires [wiring] m.metrics != nil
 //@   observe rwh := call RetrieveWithHelpers
 //@   ensures [is-helper-result] rwh.count == 1 && rwh.arg3 == daHeight && res.Code == rwh.res0.Code
